@@ -109,7 +109,41 @@ func ruleR10_1(p *Program, r *Report) {
 				}
 			}
 			if len(eos) == 0 {
-				r.Fail("R10.1", key, p.InstrPos(c), desc, "padding in a function that writes no block header: nothing ties it to the end of the stream")
+				// a helper: the padding is under one of its parameters, and every call site passes for that parameter
+				// the very value its own function hands to writeTo as eos
+				okHelper := false
+				facts := dominatingFacts(c)
+				for i, prm := range fn.Params {
+					if !assertedTrue(facts, prm) {
+						continue
+					}
+					sites, good := 0, true
+					for _, g := range p.Funcs() {
+						for _, cc := range allCalls(g) {
+							if cc.Common().StaticCallee() != fn || i >= len(cc.Common().Args) {
+								continue
+							}
+							sites++
+							match := false
+							for _, o := range allCalls(g) {
+								if staticCalleeNamed(o, deflRel, "dynamicHeader", "writeTo") && o.Common().Args[2] == cc.Common().Args[i] {
+									match = true
+								}
+							}
+							if !match {
+								good = false
+							}
+						}
+					}
+					if sites > 0 && good {
+						okHelper = true
+					}
+				}
+				if okHelper {
+					r.OK("R10.1", key, p.InstrPos(c), desc+" [helper: guarded by a parameter that every caller binds to the eos value it passes to dynamicHeader.writeTo]")
+				} else {
+					r.Fail("R10.1", key, p.InstrPos(c), desc, "padding in a function that writes no block header: nothing ties it to the end of the stream")
+				}
 				continue
 			}
 			facts := dominatingFacts(c)
@@ -340,11 +374,49 @@ func ruleR10_3(p *Program, r *Report) {
 			f := c.Common().StaticCallee()
 			return f != nil && f.Blocks != nil && f.Signature.Recv() != nil && len(c.Common().Args) > 0 && c.Common().Args[0] == ssa.Value(recv) && p.DstSet()[f]
 		}
-		isMarker := func(in ssa.Instruction) bool {
+		directMarker := func(in ssa.Instruction) bool {
 			c, ok := in.(ssa.CallInstruction)
 			return ok && staticCalleeNamed(c, deflRel, "BitBuf", "writeEmptyBlock")
 		}
-		isWrite := func(in ssa.Instruction) bool {
+		var isWrite func(in ssa.Instruction) bool
+		// tailHelper: a call to a method of the same receiver whose every path writes the marker and then hands the
+		// buffer to the destination (the tail of Flush moved into a helper): counts as marker and as write
+		tailHelper := func(in ssa.Instruction) bool {
+			c, ok := in.(ssa.CallInstruction)
+			if !ok {
+				return false
+			}
+			h := c.Common().StaticCallee()
+			if h == nil || h.Blocks == nil || h == fn || h.Signature.Recv() == nil || len(c.Common().Args) == 0 || c.Common().Args[0] != ssa.Value(recv) {
+				return false
+			}
+			var ms []ssa.Instruction
+			for _, b := range h.Blocks {
+				for _, x := range b.Instrs {
+					if directMarker(x) {
+						ms = append(ms, x)
+					}
+				}
+			}
+			if len(ms) == 0 {
+				return false
+			}
+			isRet := func(x ssa.Instruction) bool { _, ok := x.(*ssa.Return); return ok }
+			if f, _, _ := (PathQuery{Target: isRet, Barrier: directMarker}).Find(h); f {
+				return false // a path through the helper without the marker
+			}
+			for _, m := range ms {
+				if f, _, _ := (PathQuery{Start: m, Target: isRet, Barrier: isWrite}).Find(h); f {
+					return false
+				}
+			}
+			return true
+		}
+		isMarker := func(in ssa.Instruction) bool { return directMarker(in) || tailHelper(in) }
+		isWrite = func(in ssa.Instruction) bool {
+			if tailHelper != nil && in.Parent() == fn && tailHelper(in) {
+				return true
+			}
 			c, ok := in.(ssa.CallInstruction)
 			if !ok {
 				return false
@@ -377,7 +449,7 @@ func ruleR10_3(p *Program, r *Report) {
 		var encCalls, markers []ssa.Instruction
 		for _, b := range fn.Blocks {
 			for _, in := range b.Instrs {
-				if isEncode(in) {
+				if isEncode(in) && !tailHelper(in) {
 					encCalls = append(encCalls, in)
 				}
 				if isMarker(in) {
@@ -385,7 +457,7 @@ func ruleR10_3(p *Program, r *Report) {
 				}
 			}
 		}
-		if f, hit, _ := (PathQuery{Target: succ, Barrier: isEncode}).Find(fn); f {
+		if f, hit, _ := (PathQuery{Target: succ, Barrier: func(in ssa.Instruction) bool { return isEncode(in) && !tailHelper(in) }}).Find(fn); f {
 			why = "success return at " + p.InstrPos(hit) + " reachable without encoding the pending input"
 		}
 		for _, e := range encCalls {
@@ -395,6 +467,9 @@ func ruleR10_3(p *Program, r *Report) {
 			}
 		}
 		for _, m := range markers {
+			if tailHelper(m) {
+				continue // marker and destination write are both inside the helper, in that order on all its paths
+			}
 			if f, hit, _ := (PathQuery{Start: m, Target: succ, Barrier: isWrite}).Find(fn); f && why == "" {
 				why = "after the marker, the return at " + p.InstrPos(hit) + " is reachable without handing buf.output[:buf.idx] to the destination"
 			}
@@ -459,7 +534,7 @@ func ruleR10_3(p *Program, r *Report) {
 }
 
 func ruleR10_4(p *Program, r *Report) {
-	r.Expect("R10.4", 4)
+	r.Expect("R10.4", 2) // flags may be passed through a forwarding helper
 	// generate -> lz77: flush argument is the generate parameter or constant true
 	lz := p.Func(deflRel, "lz77")
 	for _, fn := range p.Funcs() {
@@ -647,20 +722,26 @@ func ruleR10_6(p *Program, r *Report) {
 	}
 	eos := wt.Params[2]
 	got := map[int64]bool{}
-	for _, c := range allCalls(wt) {
+	for _, rc := range p.regionCalls(wt) {
+		c := rc.call
 		if !staticCalleeNamed(c, deflRel, "BitBuf", "WriteBit") {
 			continue
 		}
 		w, _ := constInt(c.Common().Args[2])
 		v, isK := constInt(c.Common().Args[1])
-		if w != 3 || !isK {
+		if w != 3 || !isK || (v != 4 && v != 5) {
 			continue
 		}
-		facts := dominatingFacts(c)
-		isTrue := assertedTrue(facts, eos)
-		isFalse := false
-		for _, f := range facts {
-			if f.Y == nil && f.Op == token.NEQ && f.X == ssa.Value(eos) {
+		// the controlling value: eos itself, or the parameter of a helper that eos was passed to
+		isTrue, isFalse := false, false
+		for _, f := range dominatingFacts(c) {
+			if f.Y != nil || !boundTo(f.X, eos, rc.bind) {
+				continue
+			}
+			if f.Op == token.EQL {
+				isTrue = true
+			}
+			if f.Op == token.NEQ {
 				isFalse = true
 			}
 		}
